@@ -23,10 +23,11 @@ DISPATCH = ("begin_service_if_possible_accept", "begin_service_if_possible_relea
 
 def check(ctx):
     P = ctx.program
-    iters = (0, 1, 2) if ctx.tier == "thorough" else (0, 1)
+    iters = (0, 1)
     views = family_views(P, "Node")
     must_follow(ctx, P, views, iters)
     unconditional(ctx, P, views, iters)
+    free_server_search(ctx, P, views, iters)
     ctx.assume("built-in disciplines only (custom service disciplines are excluded by the property)")
 
 
@@ -208,3 +209,53 @@ def unconditional(ctx, P, views, iters):
                                     done.add((cls.name, m, "arrival-not-now"))
                                     ctx.violation(ob2, "R7.start-now", "%s.%s" % (cls.name, m), "arrival_date", "arrival-not-now", "arrival_date must be `now` before an immediate start (zero wait)", e.where, witness(st))
     ctx.floor("service start sites in dispatch routines", starts, 4)
+
+
+def free_server_search(ctx, P, views, iters):
+    ob = ctx.ob("FIND", "find_free_server returns a server iff some server of self.servers is not busy: it scans all of them (in priority order if given) and gives up only after the scan or at an infinite-server node")
+    done = set()
+    for view in views:
+        cls, fn = view.method("find_free_server")
+        w = Walker(P, view, keep=lambda e: e.kind in ("guard", "return", "iter", "loopexit") or (e.kind == "assign" and e.d.get("local")), track=lambda t, f: True, inline=lambda ev: False, loop_iters=iters)
+        n = 0
+        for st in w.paths_of(cls, fn):
+            if st.status != "return":
+                if st.status == "normal":
+                    n += 1      # falling off the end returns None after the scan: fine if the scan happened
+                continue
+            n += 1
+            evs = st.events
+            ret = [e for e in evs if e.kind == "return"][0]
+            facts = rules.path_condition(evs)
+            bad = None
+            for g in [e for e in evs if e.kind == "guard"]:
+                for a in guards.atoms(g.d["formula"]):
+                    okv = (a == ("isinf", "self.c")) or (a == ("isnone", "self.server_priority_function")) or (a[0] == "truth" and a[1].endswith(".busy") and "." not in a[1][:-5])
+                    if not okv:
+                        bad = (a, g)
+            loops = [e for e in evs if e.kind in ("iter", "loopexit") and isinstance(e.node, ast.For)]
+            val = unparse(ret.d["value_node"]) if ret.d["value_node"] is not None else "None"
+            ob.ok("%s:%s" % (view.name, val), "%s.find_free_server: return %s under [%s]" % (view.name, val, "; ".join(x.text for x in evs if x.kind == "guard")))
+            reason = None
+            if bad:
+                reason, msg, where = "extra-condition", "the search for a free server depends on `%s`: a free server may be overlooked while a customer waits" % guards.show(bad[0]), bad[1].where
+            elif val == "None":
+                scanned = any(e.kind == "loopexit" for e in loops)
+                if facts.get(("isinf", "self.c")) is not True and not scanned:
+                    reason, msg, where = "gives-up-before-scan", "find_free_server returns None without having looked at every server", ret.where
+            else:
+                lp = [e for e in loops if e.kind == "iter"]
+                okr = bool(lp) and val == unparse(lp[-1].node.target) and facts.get(("truth", val + ".busy")) is False
+                if okr:
+                    it = lp[-1].node.iter
+                    src = unparse(it)
+                    defs = {e.d["target"]: e.d["value"] for e in evs if e.kind == "assign"}
+                    src = defs.get(src, src).replace(" ", "")
+                    okr = src == "self.servers" or src.startswith("sorted(self.servers,")
+                if not okr:
+                    reason, msg, where = "returns-not-a-free-server", "the server returned must be an element of self.servers tested `not busy`", ret.where
+            if reason and (cls.name, reason) not in done:
+                done.add((cls.name, reason))
+                ctx.violation(ob, "R5.free-server-search", "%s.find_free_server" % cls.name, val if not bad else guards.show(bad[0]), reason, msg, where, witness(st))
+        if n < 3:
+            ctx.unrecognised("FIND: only %d paths in %s.find_free_server" % (n, view.name))
